@@ -8,7 +8,7 @@ RULE = (
 )
 ASSUMPTIONS = ["simultaneous expiries of one clock update are compared as a set",
                "a record counts as delivered when Logger.write/bulk_write/write_and_direct_process receives it"]
-BUDGET = {"quick": 300, "thorough": 8000}
+BUDGET = {"quick": 300, "thorough": 40000}
 REQUIRED = {
     "quick": {"event_records_matched": 10000, "class/run_with_round_of_2plus_fills": 50,
               "class/expiries_on_both_sides_in_one_clock_update": 30, "class/run_with_2plus_sessions": 50,
